@@ -309,7 +309,7 @@ func (ev *evaluator) evalLine(line string) lineRes {
 	}
 	name, args := ws[0], ws[1:]
 	g := ev.g
-	if name == helperName {
+	if name == helperName && !ev.c.NoMain {
 		if ev.c.Ree {
 			return rFail
 		}
@@ -958,6 +958,7 @@ type Expect struct {
 	Final     *gstate
 	Ended     bool // stop, skip or a failure without ContinueOnError ended the script before its last line
 	Known     bool
+	SkipTree  bool   // the final tree is not predicted (setup failed half way)
 	Verdict   string // pass | fail | skip
 	FailLine  int    // first failing line
 	FailLines []int
@@ -970,7 +971,7 @@ func evaluate(c *Case) *Expect {
 	ev := &evaluator{c: c, g: newGState()}
 	g := ev.g
 	ex := &Expect{Known: true}
-	unknown := func(why string) *Expect { return &Expect{Known: false, Why: why} }
+	unknown := func(why string) *Expect { return &Expect{Known: false, Why: why, Final: g} }
 	seen := map[string]bool{}
 	for _, f := range c.Files {
 		if !simplePath.MatchString(f.Name) {
@@ -979,7 +980,7 @@ func evaluate(c *Case) *Expect {
 		p := absWork + "/" + f.Name
 		if seen[p] {
 			if c.Uniq {
-				return &Expect{Known: true, Verdict: "fail", FailLine: 0, FailLines: []int{0}, Why: "duplicate entry"}
+				return &Expect{Known: true, Verdict: "fail", FailLine: 0, FailLines: []int{0}, Why: "duplicate entry", Final: g, Ended: true, SkipTree: true}
 			}
 		}
 		seen[p] = true
